@@ -45,6 +45,36 @@ theorem mem_reach (edges : List (Node × Node)) (fuel : Nat) (acc fr : List Node
           exact ⟨e, (List.mem_filter.mp he).1, rfl⟩
       · exact Or.inr h
 
+/-- what is reached stays inside every set that contains the start and is closed under the edges -/
+theorem reach_sub (edges : List (Node × Node)) (S : Node → Prop) (hS : ∀ e ∈ edges, S e.1 → S e.2)
+    (fuel : Nat) (acc fr : List Node) (ha : ∀ x ∈ acc, S x) (hf : ∀ x ∈ fr, S x) :
+    ∀ x ∈ reach edges fuel acc fr, S x := by
+  induction fuel generalizing acc fr with
+  | zero => simpa [reach] using ha
+  | succ fuel ih =>
+    unfold reach
+    simp only
+    have hnext : ∀ x ∈ ((edges.filter (fun e => decide (e.1 ∈ fr) && !decide (e.2 ∈ acc))).map (·.2)).eraseDups,
+        S x := by
+      intro x hx
+      rw [List.mem_eraseDups, List.mem_map] at hx
+      obtain ⟨e, he, rfl⟩ := hx
+      obtain ⟨he1, he2⟩ := List.mem_filter.mp he
+      simp only [Bool.and_eq_true, decide_eq_true_eq] at he2
+      exact hS e he1 (hf _ he2.1)
+    split
+    · exact ha
+    · apply ih
+      · intro x hx
+        rcases List.mem_append.mp hx with hx | hx
+        · exact ha x hx
+        · exact hnext x hx
+      · exact hnext
+
+theorem withDescs_sub {edges : List (Node × Node)} (S : Node → Prop) (hS : ∀ e ∈ edges, S e.1 → S e.2)
+    {n : Node} (hn : S n) : ∀ x ∈ withDescs edges n, S x :=
+  reach_sub edges S hS _ _ _ (by simpa using hn) (by simpa using hn)
+
 theorem self_mem_withDescs (edges : List (Node × Node)) (n : Node) : n ∈ withDescs edges n :=
   acc_sub_reach edges _ _ _ (by simp)
 
@@ -99,6 +129,48 @@ theorem clearAt_spec (n : Node) (c : Cache) (h : c.WF) : ClearSpec n c (clearAt 
       · intro hx; exact ⟨hx, fun e => hn (e ▸ h.inputsHeld x hx)⟩
       · intro hx; exact hx.1
     · intro x hx; exact ⟨hx, fun e => hn (e ▸ hx)⟩
+
+/-- what `clearAt` leaves alone: for every set `S` that contains `n` and is closed under the trace
+edges, the values and the edges outside `S` stay; and a value that disappears takes its edges along -/
+structure ClearFrame (n : Node) (c c' : Cache) : Prop where
+  keepsHeld : ∀ S : Node → Prop, S n → (∀ e ∈ c.edges, S e.1 → S e.2) → ∀ x ∈ c.held, ¬ S x → x ∈ c'.held
+  keepsEdges : ∀ S : Node → Prop, S n → (∀ e ∈ c.edges, S e.1 → S e.2) →
+    ∀ e ∈ c.edges, ¬ S e.1 → ¬ S e.2 → e ∈ c'.edges
+  goneEdges : ∀ x ∈ c.held, x ∉ c'.held → ∀ e ∈ c'.edges, e.1 ≠ x ∧ e.2 ≠ x
+
+theorem clearAt_frame (n : Node) (c : Cache) : ClearFrame n c (clearAt n c) := by
+  unfold clearAt
+  by_cases hn : n ∈ c.held
+  · simp only [hn, if_true]
+    refine ⟨?_, ?_, ?_⟩
+    · intro S hSn hS x hx hnS
+      simp only [List.mem_filter, Bool.not_eq_true', decide_eq_false_iff_not]
+      exact ⟨hx, fun hr => hnS (withDescs_sub S hS hSn x hr)⟩
+    · intro S hSn hS e he h1 h2
+      simp only [List.mem_filter, Bool.and_eq_true, Bool.not_eq_true', decide_eq_false_iff_not]
+      exact ⟨he, fun hr => h1 (withDescs_sub S hS hSn _ hr), fun hr => h2 (withDescs_sub S hS hSn _ hr)⟩
+    · intro x hx hx' e he
+      simp only [List.mem_filter, Bool.not_eq_true', decide_eq_false_iff_not] at hx'
+      have hr : x ∈ withDescs c.edges n := by
+        by_cases h : x ∈ withDescs c.edges n
+        · exact h
+        · exact (hx' ⟨hx, h⟩).elim
+      simp only [List.mem_filter, Bool.and_eq_true, Bool.not_eq_true', decide_eq_false_iff_not] at he
+      exact ⟨fun e1 => he.2.1 (e1 ▸ hr), fun e2 => he.2.2 (e2 ▸ hr)⟩
+  · simp only [hn, if_false]
+    exact ⟨fun _ _ _ x hx _ => hx, fun _ _ _ e he _ _ => he, fun x hx hx' => (hx' hx).elim⟩
+
+theorem setValue_frame (n : Node) (c : Cache) :
+    (∀ S : Node → Prop, S n → (∀ e ∈ c.edges, S e.1 → S e.2) → ∀ x ∈ c.held, ¬ S x → x ∈ (setValue n c).held) ∧
+    (∀ S : Node → Prop, S n → (∀ e ∈ c.edges, S e.1 → S e.2) →
+      ∀ e ∈ c.edges, ¬ S e.1 → ¬ S e.2 → e ∈ (setValue n c).edges) := by
+  have f := clearAt_frame n c
+  unfold setValue
+  refine ⟨?_, ?_⟩
+  · intro S hSn hS x hx hnS
+    exact List.mem_append_left _ (f.keepsHeld S hSn hS x hx hnS)
+  · intro S hSn hS e he h1 h2
+    exact f.keepsEdges S hSn hS e he h1 h2
 
 /-- what `setValue` does -/
 structure PasteSpec (n : Node) (c c' : Cache) : Prop where
@@ -227,6 +299,55 @@ theorem clear_fold (ns : List Node) (c : Cache) (h : c.WF) :
     · rw [hl, s.log]
     · intro e hm; exact s.edges e (he e hm)
 
+/-- pasting and clearing elements of a set `S` that is closed under the trace edges leaves the values
+and the edges outside `S` alone -/
+theorem paste_fold_frame (S : Node → Prop) (ns : List Node) (c : Cache) (h : c.WF)
+    (hns : ∀ n ∈ ns, S n) (hS : ∀ e ∈ c.edges, S e.1 → S e.2) :
+    let c' := ns.foldl (fun c n => setValue n c) c
+    (∀ x ∈ c.held, ¬ S x → x ∈ c'.held) ∧ (∀ e ∈ c.edges, ¬ S e.1 → ¬ S e.2 → e ∈ c'.edges) := by
+  induction ns generalizing c with
+  | nil => exact ⟨fun _ hx _ => hx, fun _ he _ _ => he⟩
+  | cons n ns ih =>
+    have s := setValue_spec n c h
+    obtain ⟨f1, f2⟩ := setValue_frame n c
+    have hS' : ∀ e ∈ (setValue n c).edges, S e.1 → S e.2 := fun e he => hS e (s.edges e he)
+    obtain ⟨i1, i2⟩ := ih (setValue n c) s.wf (fun m hm => hns m (List.mem_cons_of_mem _ hm)) hS'
+    simp only [List.foldl_cons]
+    exact ⟨fun x hx hn => i1 x (f1 S (hns n (by simp)) hS x hx hn) hn,
+      fun e he h1 h2 => i2 e (f2 S (hns n (by simp)) hS e he h1 h2) h1 h2⟩
+
+theorem clear_fold_frame (S : Node → Prop) (ns : List Node) (c : Cache) (h : c.WF)
+    (hns : ∀ n ∈ ns, S n) (hS : ∀ e ∈ c.edges, S e.1 → S e.2) :
+    let c' := ns.foldl (fun c n => clearAt n c) c
+    (∀ x ∈ c.held, ¬ S x → x ∈ c'.held) ∧ (∀ e ∈ c.edges, ¬ S e.1 → ¬ S e.2 → e ∈ c'.edges) := by
+  induction ns generalizing c with
+  | nil => exact ⟨fun _ hx _ => hx, fun _ he _ _ => he⟩
+  | cons n ns ih =>
+    have s := clearAt_spec n c h
+    have f := clearAt_frame n c
+    have hS' : ∀ e ∈ (clearAt n c).edges, S e.1 → S e.2 := fun e he => hS e (s.edges e he)
+    obtain ⟨i1, i2⟩ := ih (clearAt n c) s.wf (fun m hm => hns m (List.mem_cons_of_mem _ hm)) hS'
+    simp only [List.foldl_cons]
+    exact ⟨fun x hx hn => i1 x (f.keepsHeld S (hns n (by simp)) hS x hx hn) hn,
+      fun e he h1 h2 => i2 e (f.keepsEdges S (hns n (by simp)) hS e he h1 h2) h1 h2⟩
+
+/-- after clearing a list of elements that all have a value, no trace edge touches any of them -/
+theorem clear_fold_gone (ns : List Node) (c : Cache) (h : c.WF) :
+    ∀ p ∈ ns, p ∈ c.held → ∀ e ∈ (ns.foldl (fun c n => clearAt n c) c).edges, e.1 ≠ p ∧ e.2 ≠ p := by
+  induction ns generalizing c with
+  | nil => intro p hp; cases hp
+  | cons n ns ih =>
+    intro p hp hph e he
+    simp only [List.foldl_cons] at he
+    have s := clearAt_spec n c h
+    have f := clearAt_frame n c
+    obtain ⟨_, _, _, _, hsub⟩ := clear_fold ns (clearAt n c) s.wf
+    by_cases hstill : p ∈ (clearAt n c).held
+    · rcases List.mem_cons.mp hp with rfl | hp'
+      · exact absurd rfl (s.held p hstill).2
+      · exact ih (clearAt n c) s.wf p hp' hstill e he
+    · exact f.goneEdges p hph hstill e (hsub e he)
+
 /-! ## C. the step invariant -/
 
 theorem isTopo_of_append {succs : Node → List Node} {a b : List Node}
@@ -298,12 +419,13 @@ theorem execute_flatMap (fuel : Nat) (l : List StepOut) (c : Cache) :
 def heldAt (k : Nat) (x : Node) : Prop :=
   x ∈ pastedAt ordered succs targets size k ∨ (x ∈ targets ∧ x ∈ ordered.take (k * size))
 
-/-- the state between steps `k-1` and `k` of a run that started from the cache `c0` (which holds
-user inputs only): `c0`'s inputs, the planned elements that are pasted, nothing else -/
+/-- the state between steps `k-1` and `k` of a run that started from the cache `c0`: what `c0`
+held – user inputs and calculated values alike, with `c0`'s trace edges – and the planned elements
+that are pasted, nothing else -/
 structure SInv (c0 : Cache) (k : Nat) (c : Cache) : Prop where
   held : ∀ x, x ∈ c.held ↔ heldAt ordered succs targets size k x ∨ x ∈ c0.held
-  inputs : ∀ x, x ∈ c.inputs ↔ x ∈ c.held
-  edges : c.edges = []
+  inputs : ∀ x, x ∈ c.inputs ↔ heldAt ordered succs targets size k x ∨ x ∈ c0.inputs
+  edges : ∀ e, e ∈ c.edges ↔ e ∈ c0.edges
   log : c.log = c0.log ++ ordered.take (k * size)
 
 theorem heldAt_sub {k : Nat} {x : Node} (h : heldAt ordered succs targets size k x) :
@@ -313,9 +435,9 @@ theorem heldAt_sub {k : Nat} {x : Node} (h : heldAt ordered succs targets size k
   · exact h.2
 
 variable (c0 : Cache) (ht : isTopo succs ordered = true) (hd : ordered.Nodup)
-  (h0d : ∀ x ∈ c0.held, x ∉ ordered)
+  (h0 : c0.WF) (h0d : ∀ x ∈ c0.held, x ∉ ordered) (h0e : ∀ e ∈ c0.edges, e.1 ∉ ordered)
   (hp : ∀ n ∈ ordered, ∀ p ∈ preds n, (p ∈ ordered ∧ n ∈ succs p) ∨ p ∈ c0.held)
-include ht hd h0d hp
+include ht hd h0 h0d h0e hp
 
 /-- calc phase: the elements of the block are computed one after the other, each exactly once,
 and nothing else is computed, because everything an element calls is held when its turn comes -/
@@ -323,15 +445,16 @@ theorem calc_phase (fuel k : Nat) (c : Cache) (inv : SInv ordered succs targets 
     (rest done : List Node) (c' : Cache)
     (hB : curBlock ordered size k = done ++ rest)
     (hh : c'.held = c.held ++ done) (hi : c'.inputs = c.inputs) (hl : c'.log = c.log ++ done)
-    (he : ∀ e ∈ c'.edges, e.2 ∈ done) :
+    (he : ∀ e ∈ c'.edges, e ∈ c0.edges ∨ e.2 ∈ done) (hk : ∀ e ∈ c0.edges, e ∈ c'.edges) :
     let r := rest.foldl (fun c n => evalNode preds (fuel + 1) n c) c'
     r.held = c.held ++ curBlock ordered size k ∧ r.inputs = c.inputs ∧
-      r.log = c.log ++ curBlock ordered size k ∧ ∀ e ∈ r.edges, e.2 ∈ curBlock ordered size k := by
+      r.log = c.log ++ curBlock ordered size k ∧
+      (∀ e ∈ r.edges, e ∈ c0.edges ∨ e.2 ∈ curBlock ordered size k) ∧ ∀ e ∈ c0.edges, e ∈ r.edges := by
   induction rest generalizing done c' with
   | nil =>
     simp only [List.append_nil] at hB
     simp only [List.foldl_nil, hB]
-    exact ⟨hh, hi, hl, he⟩
+    exact ⟨hh, hi, hl, he, hk⟩
   | cons n rest ih =>
     -- ordered = (T ++ done) ++ n :: (rest ++ D)
     have eo : ordered = (ordered.take (k * size) ++ done) ++ n :: (rest ++ ordered.drop ((k + 1) * size)) := by
@@ -389,8 +512,10 @@ theorem calc_phase (fuel k : Nat) (c : Cache) (inv : SInv ordered succs targets 
     · intro e hem
       simp only [List.mem_append, List.mem_map, List.mem_singleton] at hem ⊢
       rcases hem with hem | ⟨p, _, rfl⟩
-      · exact Or.inl (he e hem)
-      · exact Or.inr rfl
+      · exact (he e hem).imp id Or.inl
+      · exact Or.inr (Or.inr rfl)
+    · intro e hem
+      exact List.mem_append_left _ (hk e hem)
 
 /-- one step of the plan takes the state between steps `k` and `k+1` -/
 theorem step_inv (fuel k : Nat) (c : Cache) (inv : SInv ordered succs targets size c0 k c) :
@@ -403,24 +528,39 @@ theorem step_inv (fuel k : Nat) (c : Cache) (inv : SInv ordered succs targets si
   -- the block is disjoint from what came before
   have hdisj : ∀ x, x ∈ ordered.take (k * size) → x ∈ curBlock ordered size k → False :=
     fun x h1 h2 => nodup_take_drop_disjoint hd _ h1 (block_sub_drop h2)
+  have h0head : ∀ e ∈ c0.edges, e.2 ∉ ordered := fun e he => h0d _ (h0.edgeHead e he).1
   -- calc
-  obtain ⟨h1h, h1i, h1l, h1e⟩ := calc_phase ordered succs targets size preds c0 ht hd h0d hp fuel k c inv
-    (curBlock ordered size k) [] c (by simp) (by simp) rfl (by simp) (by simp [inv.edges])
+  obtain ⟨h1h, h1i, h1l, h1e, h1k⟩ := calc_phase ordered succs targets size preds c0 ht hd h0 h0d h0e hp fuel k c inv
+    (curBlock ordered size k) [] c (by simp) (by simp) rfl (by simp)
+    (fun e he => Or.inl ((inv.edges e).mp he)) (fun e he => (inv.edges e).mpr he)
   generalize hc1 : (curBlock ordered size k).foldl (fun c n => evalNode preds (fuel + 1) n c) c = c1
-    at h1h h1i h1l h1e
+    at h1h h1i h1l h1e h1k
   have wf1 : c1.WF := by
     refine ⟨?_, ?_⟩
     · intro x hx
       rw [h1i, inv.inputs] at hx
-      rw [h1h]; exact List.mem_append_left _ hx
+      rw [h1h]; apply List.mem_append_left
+      rw [inv.held]
+      exact hx.imp id (h0.inputsHeld x)
     · intro e hem
-      have hb := h1e e hem
-      refine ⟨by rw [h1h]; exact List.mem_append_right _ hb, ?_⟩
-      rw [h1i, inv.inputs]
-      intro hc
-      rcases hheld_sub _ hc with hc | hc
-      · exact hdisj _ hc hb
-      · exact h0d _ hc (mem_of_mem_block hb)
+      rcases h1e e hem with h0m | hb
+      · have hh := h0.edgeHead e h0m
+        refine ⟨by rw [h1h]; exact List.mem_append_left _ ((inv.held _).mpr (Or.inr hh.1)), ?_⟩
+        rw [h1i, inv.inputs]
+        rintro (hc | hc)
+        · exact h0head e h0m (List.mem_of_mem_take (heldAt_sub ordered succs targets size hc))
+        · exact hh.2 hc
+      · refine ⟨by rw [h1h]; exact List.mem_append_right _ hb, ?_⟩
+        rw [h1i, inv.inputs]
+        rintro (hc | hc)
+        · exact hdisj _ (heldAt_sub ordered succs targets size hc) hb
+        · exact h0d _ (h0.inputsHeld _ hc) (mem_of_mem_block hb)
+  -- the planned elements are closed under the trace edges of `c1`
+  have hS1 : ∀ e ∈ c1.edges, e.1 ∈ ordered → e.2 ∈ ordered := by
+    intro e he h1
+    rcases h1e e he with h0m | hb
+    · exact (h0e e h0m h1).elim
+    · exact mem_of_mem_block hb
   -- paste
   have hpaste := stepOut_paste ordered succs targets size k (pastedAt ordered succs targets size k)
   have hclear := stepOut_clear ordered succs targets size k (pastedAt ordered succs targets size k)
@@ -440,11 +580,6 @@ theorem step_inv (fuel k : Nat) (c : Cache) (inv : SInv ordered succs targets si
     have hb : (stepAt ordered succs targets size k).block = curBlock ordered size k := rfl
     rw [hb, hc1, eval_all_held preds (fuel + 1) _ c1 hpaste_sub]
   rw [hstep]
-  generalize hc3 : (stepAt ordered succs targets size k).clear.foldl (fun c n => clearAt n c)
-    ((stepAt ordered succs targets size k).paste.foldl (fun c n => setValue n c) c1) = c3
-    at wf3 h3i h3h h3l h3e
-  generalize hc2 : (stepAt ordered succs targets size k).paste.foldl (fun c n => setValue n c) c1 = c2
-    at wf2 h2i h2h h2l h2e h3i h3h h3l h3e
   -- membership in the three lists of the step
   have mem_paste : ∀ x, x ∈ (stepAt ordered succs targets size k).paste ↔
       x ∈ curBlock ordered size k ∧ pasteHere succs targets (curBlock ordered size k) x = true := by
@@ -523,6 +658,20 @@ theorem step_inv (fuel k : Nat) (c : Cache) (inv : SInv ordered succs targets si
     rcases (mem_clear x).mp hx with ⟨hb, _⟩ | ⟨hP', _⟩
     · exact mem_of_mem_block hb
     · exact List.mem_of_mem_take (hP x hP').1
+  have paste_planned : ∀ x, x ∈ (stepAt ordered succs targets size k).paste → x ∈ ordered :=
+    fun x hx => mem_of_mem_block ((mem_paste x).mp hx).1
+  -- what lies outside the plan is left alone by the two folds
+  obtain ⟨p2h, p2e⟩ := paste_fold_frame (· ∈ ordered) (stepAt ordered succs targets size k).paste c1 wf1
+    paste_planned hS1
+  have hS2 : ∀ e ∈ ((stepAt ordered succs targets size k).paste.foldl (fun c n => setValue n c) c1).edges,
+      e.1 ∈ ordered → e.2 ∈ ordered := fun e he => hS1 e (h2e e he)
+  obtain ⟨p3h, p3e⟩ := clear_fold_frame (· ∈ ordered) (stepAt ordered succs targets size k).clear _ wf2
+    clear_planned hS2
+  generalize hc3 : (stepAt ordered succs targets size k).clear.foldl (fun c n => clearAt n c)
+    ((stepAt ordered succs targets size k).paste.foldl (fun c n => setValue n c) c1) = c3
+    at wf3 h3i h3h h3l h3e p3h p3e
+  generalize hc2 : (stepAt ordered succs targets size k).paste.foldl (fun c n => setValue n c) c1 = c2
+    at wf2 h2i h2h h2l h2e h3i h3h h3l h3e p2h p2e p3h p3e hS2
   have held_to : ∀ x, x ∈ c3.held → heldAt ordered succs targets size (k + 1) x ∨ x ∈ c0.held := by
     intro x hx
     obtain ⟨h2, hnc⟩ := h3h x hx
@@ -534,26 +683,49 @@ theorem step_inv (fuel k : Nat) (c : Cache) (inv : SInv ordered succs targets si
         · exact Or.inr h1
       · exact Or.inl (S1 x (Or.inr h1) hnc)
     · exact Or.inl (S1 x (Or.inr ((mem_paste x).mp hpm).1) hnc)
-  have to_inputs : ∀ x, (heldAt ordered succs targets size (k + 1) x ∨ x ∈ c0.held) → x ∈ c3.inputs := by
+  have to_inputs : ∀ x, (heldAt ordered succs targets size (k + 1) x ∨ x ∈ c0.inputs) → x ∈ c3.inputs := by
     intro x hx
     rw [h3i, h2i]
     rcases hx with hx | hx
     · obtain ⟨h1, hnc⟩ := S2 x hx
       refine ⟨?_, hnc⟩
       rcases h1 with h1 | h1
-      · left; rw [h1i, inv.inputs, inv.held]; exact Or.inl h1
+      · left; rw [h1i, inv.inputs]; exact Or.inl h1
       · exact Or.inr h1
-    · refine ⟨?_, fun hcl => h0d x hx (clear_planned x hcl)⟩
-      left; rw [h1i, inv.inputs, inv.held]; exact Or.inr hx
+    · refine ⟨?_, fun hcl => h0d x (h0.inputsHeld x hx) (clear_planned x hcl)⟩
+      left; rw [h1i, inv.inputs]; exact Or.inr hx
+  have from_inputs : ∀ x, x ∈ c3.inputs → heldAt ordered succs targets size (k + 1) x ∨ x ∈ c0.inputs := by
+    intro x hx
+    rw [h3i, h2i] at hx
+    obtain ⟨hx, hnc⟩ := hx
+    rcases hx with hx | hx
+    · rw [h1i, inv.inputs] at hx
+      rcases hx with hx | hx
+      · exact Or.inl (S1 x (Or.inl hx) hnc)
+      · exact Or.inr hx
+    · exact Or.inl (S1 x (Or.inr ((mem_paste x).mp hx).1) hnc)
   refine ⟨?_, ?_, ?_, ?_⟩
   · intro x
-    exact ⟨held_to x, fun hx => wf3.inputsHeld x (to_inputs x hx)⟩
+    refine ⟨held_to x, ?_⟩
+    rintro (hx | hx)
+    · exact wf3.inputsHeld x (to_inputs x (Or.inl hx))
+    · apply p3h x ?_ (h0d x hx)
+      apply p2h x ?_ (h0d x hx)
+      rw [h1h]; exact List.mem_append_left _ ((inv.held x).mpr (Or.inr hx))
   · intro x
-    exact ⟨wf3.inputsHeld x, fun hx => to_inputs x (held_to x hx)⟩
-  · rw [List.eq_nil_iff_forall_not_mem]
-    intro e hem
-    have := wf3.edgeHead e hem
-    exact this.2 (to_inputs _ (held_to _ this.1))
+    exact ⟨from_inputs x, to_inputs x⟩
+  · intro e
+    constructor
+    · intro hem
+      have h1m := h2e e (h3e e hem)
+      rcases h1e e h1m with h0m | hb
+      · exact h0m
+      · have hw := wf3.edgeHead e hem
+        rcases held_to _ hw.1 with hh | hh
+        · exact (hw.2 (to_inputs _ (Or.inl hh))).elim
+        · exact (h0d _ hh (mem_of_mem_block hb)).elim
+    · intro h0m
+      exact p3e e (p2e e (h1k e h0m) (h0e e h0m) (h0head e h0m)) (h0e e h0m) (h0head e h0m)
   · rw [h3l, h2l, h1l, inv.log, eT, List.append_assoc]
 
 end run
@@ -680,6 +852,60 @@ theorem traceTargets_spec (preds : Node → List Node) (fuel : Nat) (targets : L
       obtain ⟨w2, g2⟩ := ih _ w.toWF
       exact ⟨w2, g.trans g2⟩
 
+theorem mem_preHeld {preds : Node → List Node} {fuel : Nat} {targets : List Node} {c : Cache} {p : Node}
+    (h : p ∈ preHeld preds fuel targets c) :
+    p ∉ calculated preds fuel targets c ∧ p ∉ c.inputs ∧
+    ∃ t ∈ targets, t ∉ c.inputs ∧ t ∈ (traceTargets preds fuel targets c).held ∧
+      p ∈ withAncs (traceTargets preds fuel targets c).edges t := by
+  unfold preHeld at h
+  simp only [List.mem_filter, List.mem_eraseDups, List.mem_flatMap, Bool.and_eq_true, Bool.not_eq_true',
+    decide_eq_false_iff_not, decide_eq_true_eq] at h
+  obtain ⟨⟨t, ⟨ht, hti, hth⟩, hp⟩, h1, h2⟩ := h
+  exact ⟨h1, h2, t, ht, hti, hth, hp⟩
+
+theorem preHeld_of {preds : Node → List Node} {fuel : Nat} {targets : List Node} {c : Cache} {p t : Node}
+    (ht : t ∈ targets) (hti : t ∉ c.inputs) (hth : t ∈ (traceTargets preds fuel targets c).held)
+    (hp : p ∈ withAncs (traceTargets preds fuel targets c).edges t)
+    (h1 : p ∉ calculated preds fuel targets c) (h2 : p ∉ c.inputs) : p ∈ preHeld preds fuel targets c := by
+  unfold preHeld
+  simp only [List.mem_filter, List.mem_eraseDups, List.mem_flatMap, Bool.and_eq_true, Bool.not_eq_true',
+    decide_eq_false_iff_not, decide_eq_true_eq]
+  exact ⟨⟨t, ⟨ht, hti, hth⟩, hp⟩, h1, h2⟩
+
+/-- **what `generate_actions` leaves, for ANY well-formed cache**: the user inputs are exactly those
+it found; every value that is left was there before and is none of the planned elements (so:
+everything it calculated itself is cleared again, and so is every value held before that a target
+was calculated from – `planned`). -/
+theorem generateLeaves_general (preds : Node → List Node) (fuel : Nat) (targets : List Node) (c : Cache)
+    (h : c.WF) :
+    (generateLeaves preds fuel targets c).WF ∧
+    (∀ x, x ∈ (generateLeaves preds fuel targets c).inputs ↔ x ∈ c.inputs) ∧
+    (∀ x ∈ (generateLeaves preds fuel targets c).held, x ∈ c.held ∧ x ∉ planned preds fuel targets c) ∧
+    (generateLeaves preds fuel targets c).log = (traceTargets preds fuel targets c).log ∧
+    (∀ e ∈ (generateLeaves preds fuel targets c).edges, e ∈ (traceTargets preds fuel targets c).edges) := by
+  obtain ⟨w1, gi, new, gl, gs, gg, gd⟩ := traceTargets_spec preds fuel targets c h
+  have hcalc : calculated preds fuel targets c = new := by
+    unfold calculated; rw [gl]; simp
+  unfold generateLeaves
+  obtain ⟨w3, h3i, h3h, h3l, h3e⟩ := clear_fold (planned preds fuel targets c) (traceTargets preds fuel targets c) w1
+  generalize (planned preds fuel targets c).foldl (fun c n => clearAt n c) (traceTargets preds fuel targets c) = c3
+    at w3 h3i h3h h3l h3e
+  refine ⟨w3, ?_, ?_, h3l, h3e⟩
+  · intro x
+    rw [h3i, gi]
+    refine ⟨fun hx => hx.1, fun hx => ⟨hx, ?_⟩⟩
+    intro hp
+    unfold planned at hp
+    rcases List.mem_append.mp hp with hp | hp
+    · rw [hcalc] at hp; exact gd x hp (h.inputsHeld x hx)
+    · exact (mem_preHeld hp).2.1 hx
+  · intro x hx
+    obtain ⟨h1, h2⟩ := h3h x hx
+    refine ⟨?_, h2⟩
+    rcases gg x h1 with h1 | h1
+    · exact h1
+    · exact (h2 (by unfold planned; rw [hcalc]; exact List.mem_append_left _ h1)).elim
+
 /-- `generate_actions` leaves the cache as it found it when it held user inputs only: every
 value it calculated – and nothing else – is cleared again, for every program, every target list,
 every set of user inputs (and any call-depth bound). -/
@@ -688,31 +914,14 @@ theorem generateLeaves_spec (preds : Node → List Node) (fuel : Nat) (targets :
     (∀ x, x ∈ (generateLeaves preds fuel targets c).held ↔ x ∈ c.held) ∧
     (∀ x, x ∈ (generateLeaves preds fuel targets c).inputs ↔ x ∈ c.inputs) ∧
     (generateLeaves preds fuel targets c).edges = [] := by
-  obtain ⟨w1, gi, new, gl, gs, gg, gd⟩ := traceTargets_spec preds fuel targets c h
-  have hcalc : calculated preds fuel targets c = new := by
-    unfold calculated; rw [gl]; simp
-  unfold generateLeaves
-  rw [hcalc]
-  obtain ⟨w3, h3i, h3h, _, _⟩ := clear_fold new (traceTargets preds fuel targets c) w1
-  generalize new.foldl (fun c n => clearAt n c) (traceTargets preds fuel targets c) = c3
-    at w3 h3i h3h
-  have hin : ∀ x, x ∈ c3.inputs ↔ x ∈ c.inputs := by
-    intro x
-    rw [h3i, gi]
-    exact ⟨fun hx => hx.1, fun hx => ⟨hx, fun hn => gd x hn (h.inputsHeld x hx)⟩⟩
-  have hheld : ∀ x, x ∈ c3.held → x ∈ c.held := by
-    intro x hx
-    obtain ⟨h1, h2⟩ := h3h x hx
-    rcases gg x h1 with h1 | h1
-    · exact h1
-    · exact (h2 h1).elim
+  obtain ⟨w3, hin, hheld, _, _⟩ := generateLeaves_general preds fuel targets c h
   refine ⟨?_, hin, ?_⟩
   · intro x
-    exact ⟨hheld x, fun hx => w3.inputsHeld x ((hin x).mpr (hc x hx))⟩
+    exact ⟨fun hx => (hheld x hx).1, fun hx => w3.inputsHeld x ((hin x).mpr (hc x hx))⟩
   · rw [List.eq_nil_iff_forall_not_mem]
     intro e he
     have := w3.edgeHead e he
-    exact this.2 ((hin _).mpr (hc _ (hheld _ this.1)))
+    exact this.2 ((hin _).mpr (hc _ (hheld _ this.1).1))
 
 
 end MxModel.CalcSteps
